@@ -13,6 +13,7 @@ theorem reset_wiring (s : ChandelierExit F) (atr' : AverageTrueRange F) (mn' : M
     (h1 : s.atr.reset = some atr') (h2 : s.min.reset = some mn') (h3 : s.max.reset = some mx') :
     s.reset = some { atr := atr', min := mn', max := mx', multiplier := s.multiplier } := by
   unfold reset
+  try simp only [gen_helper]
   simp [h1, h2, h3]
 
 /-- `reset` rebuilds exactly the state `new` builds (with the same multiplier) -/
